@@ -182,6 +182,8 @@ func (c *profileReader) Read(p []byte) (int, error) {
 	return n, nil
 }
 
+// failWriter fails once the stream reaches byte offset failAt (-1 = never), whatever the size of the
+// individual Write calls: with short=true the bytes up to the offset are accepted first (short write + error).
 type failWriter struct {
 	calls  int
 	failAt int
@@ -191,12 +193,13 @@ type failWriter struct {
 
 func (w *failWriter) Write(p []byte) (int, error) {
 	w.calls++
-	if w.calls-1 == w.failAt {
-		if w.short && len(p) > 1 {
-			w.buf.Write(p[:len(p)/2])
-			return len(p) / 2, errInjected
+	if w.failAt >= 0 && w.buf.Len()+len(p) > w.failAt {
+		n := 0
+		if w.short {
+			n = w.failAt - w.buf.Len()
+			w.buf.Write(p[:n])
 		}
-		return 0, errInjected
+		return n, errInjected
 	}
 	return w.buf.Write(p)
 }
@@ -204,7 +207,7 @@ func (w *failWriter) Write(p []byte) (int, error) {
 func init() {
 	core.Register(&core.Check{
 		ID: "C10", Level: "fault_enumeration",
-		Rule:   "inputs: an honest 576-byte proof with EVERY single-field substitution (17 point fields x {other valid point, x+p alias, non-subgroup x, off-curve x, 0, 1, p-1, p, 2^256-1, p-x}; scalar x {0,1,r-1,r,r+1,2^253,2^256-1}), all pairs of substitutions in thorough, every length 0..600 (truncation at every byte, 1..24 trailing bytes), through MultiProof.Read and IPAProof.Read against a reference field decoder, with Write(Read(x)) = x; fault sequences: for 4 inputs (valid, 577 bytes, 575 bytes, invalid scalar) ALL reader answer sequences with <= 2 deviations from 'full read' over {1 byte, half, data+EOF, injected error} (every Read call is a choice point), the extreme profiles (always 1 byte, always half, data+EOF at the end), an injected error at EVERY byte offset 0..576, and a failing / short-writing writer at EACH write call; non-trivial = every substituted, truncated, extended or fault-injected case",
+		Rule:   "inputs: an honest 576-byte proof with EVERY single-field substitution (17 point fields x {other valid point, x+p alias, non-subgroup x, off-curve x, 0, 1, p-1, p, 2^256-1, p-x}; scalar x {0,1,r-1,r,r+1,2^253,2^256-1}), all pairs of substitutions in thorough, every length 0..600 (truncation at every byte, 1..24 trailing bytes), through MultiProof.Read and IPAProof.Read against a reference field decoder, with Write(Read(x)) = x; fault sequences: for 4 inputs (valid, 577 bytes, 575 bytes, invalid scalar) ALL reader answer sequences with <= 2 (3 thorough) deviations from 'full read' over {1 byte, half, data+EOF, injected error} (every Read call is a choice point), the extreme profiles (always 1 byte, always half, data+EOF at the end), an injected error at EVERY byte offset 0..576, and a writer failing (or short-writing) at EVERY byte offset of the output, followed by a healthy Write; non-trivial = every substituted, truncated, extended or fault-injected case",
 		Assume: []string{"well-behaved reader = obeys the io.Reader contract and never returns (0, nil)", "reference decoder = C06 predicate per point field, little-endian value < r for the scalar, exact length"},
 		Units:  c10Units,
 	})
@@ -244,6 +247,29 @@ func c10Units(ctx *core.Ctx) []core.Unit {
 		return m
 	}
 	scalarSubs := map[string]*big.Int{"0": bi(0), "1": bi(1), "r-1": new(big.Int).Sub(bigR, bi(1)), "r": bigR, "r+1": new(big.Int).Add(bigR, bi(1)), "2^253": pow2(253), "2^256-1": new(big.Int).Sub(pow2(256), bi(1))}
+	us = append(us, core.Unit{Name: "single-field substitutions under other CPU counts", Run: func(ctx *core.Ctx, r *core.Result) {
+		if !vsched.Instrumented {
+			r.Note("seam", "unavailable (fallback flavour)")
+			return
+		}
+		needRef()
+		defer setCPU(0)
+		honest := honestProofBytes(ctx.Seed, 0)
+		for _, k := range []int{1, 2, 3, 4, 5, 7, 8, 17} {
+			setCPU(k)
+			c10Input(r, honest, fmt.Sprintf("honest proof, NumCPU=%d", k))
+			for f := 0; f < 17; f++ {
+				for name, v := range pointSubs(ctx.Seed, honest, f) {
+					b := append([]byte(nil), honest...)
+					copy(b[f*32:], v)
+					c10Input(r, b, fmt.Sprintf("honest proof with point field %d := %s, NumCPU=%d", f, name, k))
+				}
+			}
+			b := append([]byte(nil), honest...)
+			copy(b[544:], ref.LE32(bigR))
+			c10Input(r, b, fmt.Sprintf("honest proof with scalar := r, NumCPU=%d", k))
+		}
+	}})
 	us = append(us, core.Unit{Name: "single-field substitutions", Run: func(ctx *core.Ctx, r *core.Result) {
 		needRef()
 		for which := 0; which < 2; which++ {
@@ -375,6 +401,9 @@ func c10Units(ctx *core.Ctx) []core.Unit {
 				return exp + " whatever the chunking (or an error when the reader fails)"
 			}
 			bd := 2
+			if ctx.Thorough() {
+				bd = 3
+			}
 			st := core.Explore(r, core.SchedSpec{Name: "MultiProof.Read of " + in.name + " under a fault-injecting reader", API: "MultiProof.Read", Check: "c10.chunking", Body: body, Judge: judge, Mode: "bounded", Opt: explore.Options{MaxBound: bd, DataOnly: true}})
 			r.Nontrivial += int64(st.Complete)
 			r.Note(fmt.Sprintf("outcomes_%d", fi), fmt.Sprint(st.Outcomes))
@@ -435,10 +464,13 @@ func c10Units(ctx *core.Ctx) []core.Unit {
 		if err := mp.Read(bytes.NewReader(honest)); err != nil {
 			panic("C10: honest proof does not parse: " + err.Error())
 		}
-		for k := 0; k < 18; k++ {
+		for k := 0; k < 576; k++ {
 			for _, short := range []bool{false, true} {
+				if !ctx.Thorough() && short && k%32 != 0 && k%32 != 1 && k%32 != 31 {
+					continue
+				}
 				w := &failWriter{failAt: k, short: short}
-				desc := fmt.Sprintf("writer fails at write call %d (short write: %v)", k, short)
+				desc := fmt.Sprintf("writer fails at byte offset %d (short write: %v)", k, short)
 				var err error
 				if !guard(r, "c10.panic", "MultiProof.Write", desc, func() { err = mp.Write(w) }) {
 					continue
@@ -448,17 +480,24 @@ func c10Units(ctx *core.Ctx) []core.Unit {
 				if err == nil {
 					vio(r, "c10.writeerror", "MultiProof.Write", desc, "an error", "nil")
 				}
-				if k >= 1 {
-					wi := &failWriter{failAt: k - 1, short: short}
+				if k >= 32 {
+					wi := &failWriter{failAt: k - 32, short: short}
 					if err := mp.IPA.Write(wi); err == nil {
 						vio(r, "c10.writeerror", "ipa.IPAProof.Write", desc, "an error", "nil")
+					}
+				}
+				// a failed Write must not influence the next one
+				if k%64 == 5 {
+					w2 := &failWriter{failAt: -1}
+					if err := mp.Write(w2); err != nil || !bytes.Equal(w2.buf.Bytes(), honest) {
+						vio(r, "c10.roundtrip", "MultiProof.Write", "a Write after "+desc, "the 576 honest bytes", fmt.Sprintf("%d bytes err=%v", w2.buf.Len(), err))
 					}
 				}
 			}
 		}
 		w := &failWriter{failAt: -1}
-		if err := mp.Write(w); err != nil || w.calls != 18 || !bytes.Equal(w.buf.Bytes(), honest) {
-			vio(r, "c10.roundtrip", "MultiProof.Write", "honest proof", "18 write calls reproducing the 576 bytes", fmt.Sprintf("calls=%d err=%v", w.calls, err))
+		if err := mp.Write(w); err != nil || !bytes.Equal(w.buf.Bytes(), honest) {
+			vio(r, "c10.roundtrip", "MultiProof.Write", "honest proof after the failing writers", "the 576 honest bytes", fmt.Sprintf("%d bytes err=%v", w.buf.Len(), err))
 		}
 		// Read(Write(p)) equals p for honest proofs
 		for which := 0; which < 2; which++ {
@@ -472,7 +511,7 @@ func c10Units(ctx *core.Ctx) []core.Unit {
 			}
 			r.Evals++
 		}
-		r.Sample(map[string]interface{}{"profiles": "1,3,16,31,33-byte chunks, data+EOF variants", "error_offsets": "0..576", "writer": "fails / short-writes at each of 18 calls"})
+		r.Sample(map[string]interface{}{"profiles": "1,3,16,31,33-byte chunks, data+EOF variants", "error_offsets": "0..576", "writer": "fails / short-writes at every byte offset 0..575"})
 	}})
 	return us
 }
